@@ -64,6 +64,8 @@ def digest(obj) -> str:
 
 def diff(a, b, path=""):
     """List of paths where two deep() structures differ."""
+    if isinstance(a, list) and isinstance(b, list):
+        a, b = ("list", a), ("list", b)
     if type(a) is not type(b):
         return [path or "/"]
     if isinstance(a, tuple) and a and a[0] == "dict":
@@ -80,7 +82,10 @@ def diff(a, b, path=""):
             return [path or "/"]
         out = []
         for i, (x, y) in enumerate(zip(a[1], b[1])):
-            name = x[0] if isinstance(x, tuple) and len(x) == 2 and isinstance(x[0], str) else str(i)
-            out += diff(x, y, f"{path}/{name}")
+            if isinstance(x, tuple) and len(x) == 2 and isinstance(x[0], str) and isinstance(y, tuple) and len(y) == 2 \
+                    and x[0] == y[0] and x[0] not in ("dict", "list", "tuple", "f"):
+                out += diff(x[1], y[1], f"{path}/{x[0]}")   # a (name, value) pair
+            else:
+                out += diff(x, y, f"{path}/{i}")
         return out
     return [] if a == b else [path or "/"]
